@@ -13,6 +13,9 @@ func init() {
 	for _, c := range [][]int64{{65536, 1000}, {65536, 1024}, {64, 7}} {
 		quick = append(quick, &Job{Pkg: "utils/pool/pbytes", Func: "ZZ_C19_ConcurrentGet", Args: c, PoolPrecise: true, Bounds: "one pooled buffer, two concurrent Gets, all interleavings"})
 	}
+	for _, c := range [][]int64{{65536, 100}, {64, 7}} {
+		quick = append(quick, &Job{Pkg: "utils/pool/pbuffer", Func: "ZZ_C19_BufferHandOver", Args: c, PoolPrecise: true, Bounds: "a buffer handed over through the pool from one goroutine to another (pool operations are scheduling points, the object is up for grabs the moment Put stored it), all interleavings"})
+	}
 	for _, m := range []int64{2, 3, 63, 65, 100, 127, 128, 129, 1000, 1024, 4095, 4096, 4097, 32768, 65535, 65537, 131072, 1 << 20} {
 		thorough = append(thorough, &Job{Pkg: "utils/pool", Func: "ZZ_C19_PutGet", Args: []int64{m}, PoolPrecise: true})
 		thorough = append(thorough, &Job{Pkg: "utils/pool", Func: "ZZ_C19_Index", Args: []int64{m}, PoolPrecise: true})
@@ -21,7 +24,7 @@ func init() {
 	}
 	Specs["C19"] = &Spec{
 		Jobs:      jobsBy(quick, thorough),
-		MustReach: []string{"pmath-n>2", "c19-reuse", "c19-miss", "c19-bytes-reuse", "c19-buffer-reuse", "c19-concurrent-done"},
+		MustReach: []string{"pmath-n>2", "c19-reuse", "c19-miss", "c19-bytes-reuse", "c19-buffer-reuse", "c19-concurrent-done", "c19-buffer-handed-over"},
 		Bounds: map[string]string{
 			"quick":    "requested size n and Put capacity c: every value in [0,2^62] (generic pool) / [0,2^40] (pbytes, pbuffer), as 64-bit bit-vectors; pool max in {65536 (default), 64, 10, 1}; one Put followed by two Gets (inductive step over a memoryless shard); loop-free, no unwinding",
 			"thorough": "same, with 18 more pool maxima from 2 to 2^20 around every power of two",
